@@ -39,6 +39,12 @@ BOOL_DEFAULTS = {"field": [("optional", False), ("padded", False)],
                  "length": [("optional", False)]}
 
 
+def _prefix(oj):
+    """Bytes already in the writer, derived from the object itself so that a replay uses the same."""
+    from vlib.runner import h64
+    return (b"", b"\x01", b"", b"\xfe\x41", b"\x05\x06\x07")[h64(oj) % 5]
+
+
 def explicit_defaults(tree, picks):
     """Copy of tree with boolean defaults spelled out at the locations selected by `picks`
     (an iterator of booleans, consumed in document order)."""
@@ -97,8 +103,11 @@ def check_case(case, res=None):
             for oi, oj in enumerate(it["objs"]):
                 obj = valuegen.from_json(oj)
                 ip = Interp(an)
+                # the writer may already hold data (a packet header, earlier structures): every other object is
+                # serialised into a writer that is not empty
+                prefix = _prefix(oj)
                 try:
-                    exp = ip.serialize(c["body"], obj, c["lex"], it["mode"])
+                    exp = ip.serialize(c["body"], obj, c["lex"], it["mode"], prefix=prefix)
                 except Invalid:
                     if res is not None:
                         res.labels["obj:ref_invalid(C16)"] += 1
@@ -116,6 +125,7 @@ def check_case(case, res=None):
                         res.labels[f"obj:ctor_raised_{type(e).__name__}"] += 1
                     continue
                 w = s.writer(it["mode"])
+                w.add_bytes(prefix)
                 try:
                     cls.serialize(w, inst)
                 except Exception as e:
@@ -127,6 +137,7 @@ def check_case(case, res=None):
                 expected[(tuple(it["cls"]), oi)] = exp
                 if len(it["cls"]) == 1 and c["decl"]["kind"] == "packet":
                     w2 = s.writer(it["mode"])
+                    w2.add_bytes(prefix)
                     inst.write(w2)
                     if bytes(w2.to_bytearray()) != exp:
                         raise Violation("packet_write_matches_serialize", cj, exp.hex(), bytes(w2.to_bytearray()).hex())
@@ -180,6 +191,7 @@ def check_case(case, res=None):
                     obj = valuegen.from_json(oj)
                     inst = s2.builder.build(cls2, c2["body"], obj)
                     w = s2.writer(it["mode"])
+                    w.add_bytes(_prefix(oj))
                     try:
                         cls2.serialize(w, inst)
                         got = bytes(w.to_bytearray()).hex()
